@@ -228,6 +228,7 @@ static void prop_c03_encoding(hz::Ctx &ctx) {
           else it.ops.push_back(cands[k][(di + k * 3) % cands[k].size()]);
         }
         if (!encodable(it)) continue;
+        if (r.f->kw == KW_REQ && has_mem(*r.f) && ((vi + dj) & 1)) it.kw_imm = true;
         bool ismov = r.mn == "mov";
         for (int c : combos_for(ctx, vi * 131 + di, has_mem(*r.f), ismov)) { LineCase lc{it, c}; run_case(ctx, lc, nontriv); }
       }
@@ -305,6 +306,7 @@ static void prop_c03_corners(hz::Ctx &ctx) {
         else { auto c = reg_candidates(s, r.size); if (c.empty()) { bad = true; break; } WOpd o = c[(si + vi) % c.size()]; if (o.high8) { o.high8 = false; o.reg &= 3; } it.ops.push_back(o); }
       }
       if (bad || !encodable(it)) continue;
+      if (r.f->kw == KW_REQ && ((si + vi) % 3) == 0) it.kw_imm = true;
       LineCase lc{it, (int)((si * 7 + vi * 5 + ctx.seed) % 12)}; run_case(ctx, lc, nontriv);
     }
   }
